@@ -1,9 +1,18 @@
 """vcheck configuration of work group I2: PROPS = {"Cxx": {"families": [fam("name", quick_n, thorough_n)], "defects": ["Dn"]}}"""
 
+# i2.pat     : (stored pattern, match-case, target) -> Go preparePattern + MatchString vs modelPat (groups A + G composed)
+# i2.match   : NetworkRule.Match evaluated entirely in the model (Ext.pat := modelPat), no Go pattern table
+# i2.newrule : rules.NewRule vs the complete parser model (groups D, E, H composed), full record dump;
+#              Go-supplied tables: netip.ParseAddr / ParsePrefix and the shortcut of /regex/ rules only
 _PAT = fam("i2.pat", 4000, 60000)
 _MATCH = fam("i2.match", 3000, 50000)
+_NEWRULE = fam("i2.newrule", 4000, 60000)
 
 PROPS = {
     "C03": {"families": [_PAT, _MATCH]},
-    "C04": {"families": [_PAT, _MATCH]},
+    "C04": {"families": [_PAT, _MATCH, _NEWRULE]},
+    "C05": {"families": [_MATCH]},
+    "C10": {"families": [_NEWRULE]},
+    "C12": {"families": [_NEWRULE]},
+    "C18": {"families": [_NEWRULE]},
 }
